@@ -4,11 +4,11 @@ CONSTANTS
   SizeKB <- MCSize3
   PPKeys <- MCPP3
   ValKeys <- MCVal3
-  Limits <- MCLimits
+  Limits <- MCLimit1
   MB = 1000
   MaxFaults = 1
   MaxReqLen = 2
-  Chunked = TRUE
+  Chunked = FALSE
   Variant = "fixed"
 VIEW View
 INVARIANT NoC18Violation
